@@ -39,6 +39,20 @@ LONG_LIVED = ("SimpleJSONRPCDispatcher", "SimpleJSONRPCServer", "PooledJSONRPCSe
               "Config", "LocalClasses")
 
 
+def _field_read(prog, attr):
+    """some function of the package loads an attribute of that name (or fetches it with getattr / hasattr)"""
+    for fi in prog.funcs.values():
+        for x in ast.walk(fi.node):
+            if isinstance(x, ast.Attribute) and x.attr == attr and isinstance(x.ctx, ast.Load):
+                return True
+            if isinstance(x, ast.Call) and isinstance(x.func, ast.Name) and x.func.id in ("getattr", "hasattr") and len(x.args) > 1 and \
+                    isinstance(x.args[1], ast.Constant) and x.args[1].value == attr:
+                return True
+            if isinstance(x, ast.Call) and isinstance(x.func, ast.Name) and x.func.id in ("vars",):
+                return True
+    return False
+
+
 def check(ck):
     prog = ck.prog
     fields = common.config_fields(prog)
@@ -136,6 +150,11 @@ def check(ck):
                 elif a[0] == "global" or (root[0] == "global" and root[1] not in ("request",)):
                     if not common.is_fresh(a):
                         bad = "module-level state (%s)" % prov.show(a)
+            fld = desc[len("store self."):] if desc.startswith("store self.") else ""
+            if bad and bad.startswith("the long-lived") and fld.isidentifier() and not _field_read(prog, fld):
+                ck.ok("C13.3", "%s: %s" % (q.fn(fi), desc), "write-only field: nothing in the package reads self.%s (a diagnostic trace, "
+                      "not state that later requests depend on)" % fld, q.loc(fi, n))
+                continue
             if bad:
                 ck.bad("C13.3", "%s: %s" % (q.fn(fi), desc),
                        "serving a request modifies %s: later or concurrent requests can observe it" % bad, q.loc(fi, n))
